@@ -12,6 +12,7 @@ import (
 	"sort"
 	"strings"
 	"sync"
+	"sync/atomic"
 	"syscall"
 	"time"
 
@@ -80,21 +81,24 @@ type observed struct {
 }
 
 type session struct {
-	w        *fsnotify.Watcher
-	realFd   int
-	injectFd int
-	obs      *observed
-	root     string
-	sentinel string
-	sentWd   uint32
-	barrierN int
-	closed   bool
-	evSeen   int // events already attributed
-	erSeen   int
-	report   func(prop, sig, what string, detail map[string]interface{})
-	lastOps  []string // op lines of this session (for replays)
-	faithful bool     // every injected record is one the real kernel would have produced here
-	lastRet  string   // return class of the last Add
+	pace      int // consumer pace: 0 immediate, 1 delayed, 2 bursty
+	paused    int32
+	paceState uint64
+	w         *fsnotify.Watcher
+	realFd    int
+	injectFd  int
+	obs       *observed
+	root      string
+	sentinel  string
+	sentWd    uint32
+	barrierN  int
+	closed    bool
+	evSeen    int // events already attributed
+	erSeen    int
+	report    func(prop, sig, what string, detail map[string]interface{})
+	lastOps   []string // op lines of this session (for replays)
+	faithful  bool     // every injected record is one the real kernel would have produced here
+	lastRet   string   // return class of the last Add
 }
 
 func errClass(err error) string {
@@ -151,6 +155,14 @@ func newSession(root string, bufsz uint) *session {
 	go func() {
 		ev, er := w.Events, w.Errors
 		for ev != nil || er != nil {
+			// consumer pace (C03/C01 quantify over it): delayed = a short random pause before every
+			// receive; bursty = nothing is received while the harness holds the gate shut
+			for atomic.LoadInt32(&s.paused) != 0 {
+				time.Sleep(20 * time.Microsecond)
+			}
+			if s.pace == 1 {
+				spin(time.Duration(paceRand(&s.paceState)%40) * time.Microsecond)
+			}
 			select {
 			case e, ok := <-ev:
 				s.obs.mu.Lock()
@@ -174,6 +186,17 @@ func newSession(root string, bufsz uint) *session {
 		}
 	}()
 	return s
+}
+
+// spin waits without parking the goroutine (time.Sleep is far coarser than the reader's loop)
+func spin(d time.Duration) {
+	for t := time.Now(); time.Since(t) < d; {
+	}
+}
+
+func paceRand(st *uint64) uint64 {
+	*st = *st*6364136223846793005 + 1442695040888963407
+	return *st >> 33
 }
 
 func (s *session) close() {
@@ -219,6 +242,14 @@ func (s *session) wdOf(path string, noFollow bool) (uint32, bool) {
 // inject writes one datagram and then a barrier datagram; returns the events and errors the
 // watcher delivered for the datagram (everything that arrived before the barrier's own event).
 func (s *session) inject(buf []byte, timeout time.Duration) (evs []fsnotify.Event, errs []error, ok bool) {
+	if s.pace == 2 { // bursty consumer: let the reader run into a full buffer, then drain at full speed
+		atomic.StoreInt32(&s.paused, 1)
+		defer atomic.StoreInt32(&s.paused, 0)
+		go func(d time.Duration) {
+			time.Sleep(d)
+			atomic.StoreInt32(&s.paused, 0)
+		}(time.Duration(paceRand(&s.paceState)%300) * time.Microsecond)
+	}
 	if len(buf) > 0 {
 		if _, err := unix.Write(s.injectFd, buf); err != nil {
 			check(fmt.Errorf("inject write: %w", err))
@@ -660,6 +691,9 @@ func runInject(r *rec, g *rng, tier, what, replay, out string, extra map[string]
 		check(os.Chdir(root))
 		bufsz := []uint{0, 0, 1, 2, 7, 64, 4096}[sg.intn(7)]
 		s := newSession(root, bufsz)
+		s.pace = []int{0, 0, 1, 2}[sg.intn(4)]
+		s.paceState = sg.s
+		r.notes[fmt.Sprintf("pace:%d", s.pace)]++
 		s.sentinel = filepath.Join(root, ".sentinel")
 		startSeq := r.seq
 		seen := map[string]bool{}
@@ -796,6 +830,30 @@ func runSession(r *rec, g *rng, s *session, u *universe, steps int, mon *os.File
 				buf = append(buf, p.bytes()...)
 			}
 			if len(buf) > 0 && !s.opRaw(r, buf) {
+				return
+			}
+		case c < 60: // one long read: create/write/remove cycles in a listed directory (hundreds of records)
+			snap := fsnotify.VerifTables(s.w)
+			var wds []uint32
+			for _, x := range snap.Wd {
+				if x.Key != s.sentWd {
+					wds = append(wds, x.Key)
+				}
+			}
+			if len(wds) == 0 {
+				continue
+			}
+			wd := wds[g.intn(len(wds))]
+			n := 50 + g.intn(150)
+			var buf []byte
+			for j := 0; j < n; j++ {
+				nm := kernelPad(fmt.Sprintf("b%03d", j))
+				for _, m := range []uint32{inCreate, inModify, inDelete} {
+					buf = append(buf, rawRec{wd: wd, mask: m, name: nm}.bytes()...)
+				}
+			}
+			r.notes["raw:long"]++
+			if !s.opRaw(r, buf) {
 				return
 			}
 		default: // a datagram of 1..k synthetic records
